@@ -43,7 +43,15 @@ def run(rep):
                 "language/id twice, only the default language is marked default and it is marked when present.")
     rep.assumptions = ["projection of itext ids/refs by harness/project.py (ElementTree)"]
     _itext.run(rep, PROP, _canaries, _classify)
+    # a long-lived Survey object: render / add translated elements through the builder API / render again (SurveyObject.tla histories)
+    from harness.props import c02
+
+    c02.part_histories(rep, PROP)
 
 
 def replay(rep, case):
+    if "history" in case.get("case", {}):
+        from harness.props import c02
+
+        return c02.replay_history(rep, PROP, case["case"])
     _itext.replay(rep, PROP, case, _classify)
